@@ -34,9 +34,8 @@ def prepare(sc: Scratch) -> dict:
 
 
 def confirm(sc: Scratch, prep: dict, r: HarnessResult, log_dir: Path) -> dict:
-    role = f"{r.spec.name}: " + "; ".join(sorted({c["description"] for c in r.failed}))
-    return {"reproduced": None, "role": role, "detail": "native replay for the middleware is not wired yet"}
+    return session.confirm_session(PID, sc, prep, r, log_dir, "verif_c12")
 
 
 def replay(path: Path) -> int:
-    return 2
+    return session.replay_script(PID, path)
